@@ -44,6 +44,13 @@ def fpRowAt (dt fptype n jc : Nat) (ltyc : Nat → Bool) (e1 delta : α) (p : Na
   | some w => fpBody dt fptype w.body e1 delta p j
   | none => []
 
+/-- the constructor's `ycenter`: the energy axis' zero bin `zb`, clamped as the GENERATED
+    `fpYcenterClamp` says (`std::min(std::max(zb, lo), _ysize - hi)`) -/
+def fpYcenter [NatCast α] [MinMax α] (n : Nat) (zb : α) : α :=
+  match fpYcenterClamp with
+  | none => zb
+  | some (lo, hi) => MinMax.min (MinMax.max zb ((lo : Nat) : α)) (((n - hi : Nat)) : α)
+
 /-- one destination cell of `FokkerPlanckMap::apply` (no bounds test in the code) -/
 def fpCell (row : List (Hi α)) (rd : Nat → α) : α :=
   row.foldl (fun v h => v + rd h.1 * h.2) zero
